@@ -106,6 +106,14 @@ pub fn check(c: &LitCase) -> CaseReport {
     CaseReport::pass(s, nt, classes)
 }
 
+/// Number of digits of the literal's exponent (0 without one).
+fn exponent_digits(s: &str) -> usize {
+    match s.find(|c| c == 'e' || c == 'E') {
+        Some(i) => s[i + 1..].chars().filter(|c| c.is_ascii_digit()).count(),
+        None => 0,
+    }
+}
+
 fn nth_string(alpha: &[u8], len: usize, mut idx: u64) -> String {
     let k = alpha.len() as u64;
     let mut b = vec![0u8; len];
@@ -170,6 +178,11 @@ pub fn run_check(ctx: &Ctx) {
             total,
             |i| {
                 let s = nth_string(REDUCED, len, i);
+                // cost bound: the tool's reader needs seconds for an exponent of five or more digits (its
+                // fraction is reduced with a quadratic gcd); those literals are sampled below instead
+                if exponent_digits(&s) >= 5 {
+                    return None;
+                }
                 if plausible(&s) && parse_literal(&s).is_some() {
                     Some(LitCase { lit: s })
                 } else {
@@ -181,7 +194,11 @@ pub fn run_check(ctx: &Ctx) {
         );
     }
     ctx.exhaustive.store(true, std::sync::atomic::Ordering::Relaxed);
-    ctx.put("exhaustive_scope", json!(format!("all well-formed literals of length <= {} over all ten digits, length <= {} over digits 0 1 5 9", max_full, max_red)));
+    ctx.put("exhaustive_scope", json!(format!("all well-formed literals of length <= {} over all ten digits, length <= {} over digits 0 1 5 9 (exponents of at most four digits; five-digit exponents are sampled)", max_full, max_red)));
+    if ctx.tier == crate::runner::Tier::Thorough {
+        let big: Vec<LitCase> = ["1e99999", "5e-99999", "9e+15915", ".5e-90159", "1.e10001", "-1e-55555", "+5E59195", "15e-10000", "0e-99999", "9.9e99999", "1e-99999%", "5e010000"].iter().map(|s| LitCase { lit: s.to_string() }).collect();
+        ctx.run_list("five-digit-exponents", &big, check, |c| to_json(c));
+    }
     // the tool's reader is quadratic in the literal length (a gcd per digit), so
     // the long class is smaller; lengths are a cost bound, not a limit of the code
     let n = ctx.tier.pick(100_000u64, 2_000_000);
